@@ -28,8 +28,9 @@ func main() {
 	tier := flag.String("tier", "quick", "quick | thorough")
 	dump := flag.String("dump", "", "debug: print edge facts of the named function")
 	funcs := flag.Bool("funcs", false, "print the function table (input of tool/known_funcs.txt)")
+	exploreF := flag.Bool("explore", false, "development aid: run the generic engines over the whole module")
 	flag.Parse()
-	if *prop == "" && *dump == "" && !*funcs {
+	if *prop == "" && *dump == "" && !*funcs && !*exploreF {
 		fmt.Println("usage: liskcheck -prop Cnn [-tier quick|thorough] [-repo /repo]")
 		os.Exit(2)
 	}
@@ -45,6 +46,10 @@ func main() {
 				fmt.Println(FuncKey(fn))
 			}
 		}
+		return
+	}
+	if *exploreF {
+		explore(p)
 		return
 	}
 	if *dump != "" {
